@@ -47,6 +47,7 @@ Section Corr.
   Variable row_num : row -> N.
   Variable input : Type.
   Variable mem : Type.
+  Variable row_has_leaves : row -> bool.
   Variable apply : mem -> list row -> N -> input -> apply_result row * mem.
   Variable on_reorg : mem -> mem.
 
@@ -54,7 +55,7 @@ Section Corr.
     match ops, obs with
     | [], [] => true
     | o :: t, ob :: obs' =>
-        let r := step row row_num input mem apply on_reorg o st in
+        let r := step row row_num input mem row_has_leaves apply on_reorg o st in
         let st' := snd r in
         (match o with
          | OpQuery => Bool.eqb (is_inconsistent (so_out ob)) (is_inconsistent (run_method row mem m st OOk))
@@ -70,7 +71,7 @@ Section Corr.
     match ops with
     | [] => []
     | o :: t =>
-        let r := step row row_num input mem apply on_reorg o st in
+        let r := step row row_num input mem row_has_leaves apply on_reorg o st in
         let st' := snd r in
         {| so_out := match o with OpQuery => run_method row mem m st OOk | _ => fst r end;
            so_last := last_block row row_num mem st'; so_rows := block_count row mem st' |} :: model_obs m t st'
@@ -83,9 +84,9 @@ Definition corr_method (recv meth : string) (s : scen) (obs : list step_obs) : b
   | Some m =>
       match s with
       | SBridge ops => String.eqb recv "BridgeSync" &&
-                       corr_steps brow br_num (list bevent) bmem b_apply b_on_reorg m ops b_init obs
+                       corr_steps brow br_num (list bevent) bmem b_has_leaves b_apply b_on_reorg m ops b_init obs
       | SL1 ops => String.eqb recv "L1InfoTreeSync" &&
-                   corr_steps lrow lr_num (list levent) unit l_apply l_on_reorg m ops l_init obs
+                   corr_steps lrow lr_num (list levent) unit l_has_leaves l_apply l_on_reorg m ops l_init obs
       end
   end.
 
@@ -105,7 +106,8 @@ Definition corr (c : case14) : bool :=
    Two parts of the property:
      fail-stop  (always checked): once the inconsistency error was returned, every further ProcessBlock returns it and
                 nothing is stored, every data query returns it, a reorg clears the condition iff it removed a processed
-                block; a syncer that is not in that condition never answers a query with the inconsistency error;
+                block (a Reorg that returns an error removed nothing and clears nothing); a syncer that is not in that
+                condition never answers a query with the inconsistency error;
      detection  (checked when detect = true): a syncer that is not in that condition returns the inconsistency error
                 for a block exactly when the block contradicts the store, by the reference notion of inconsistency per
                 syncer below (naive, not the model's scan). *)
@@ -143,6 +145,17 @@ Section Spec.
         | OpQuery =>
             (if h then implb touches (is_inconsistent out) else negb (is_inconsistent out))
             && spec_steps detect touches t acc h (so_last ob) (so_rows ob) obs'
+        | OpReorgFault _ b =>
+            if outcome_eqb out OOk then
+              (* the fault did not hit: an ordinary reorg *)
+              let acc' := filter (fun x => fst x <? b) acc in
+              let removed := negb (Nat.eqb (List.length acc') (List.length acc)) in
+              spec_steps detect touches t acc' (h && negb removed) (so_last ob) (so_rows ob) obs'
+            else
+              (* Reorg returned an error: its transaction was rolled back, no processed block was removed, so the
+                 condition is NOT cleared; what follows is judged with the same bookkeeping *)
+              (so_last ob =? pl) && (so_rows ob =? pr)
+              && spec_steps detect touches t acc h (so_last ob) (so_rows ob) obs'
         end
     | _, _ => false
     end.
